@@ -85,7 +85,9 @@ type verifC29Sender struct {
 	distance uint64
 }
 
-func (s verifC29Sender) EarliestBlockInMemory(ctx context.Context) (uint64, error) { return s.earliest, nil }
+func (s verifC29Sender) EarliestBlockInMemory(ctx context.Context) (uint64, error) {
+	return s.earliest, nil
+}
 func (s verifC29Sender) GetEpochSizeMultipliedByRecommendedEpochNumToCollectPayment(ctx context.Context) (uint64, error) {
 	return s.distance, nil
 }
